@@ -117,7 +117,10 @@ def src_hash():
 VARIANTS = {
     # name: (compiler, flags)
     "asan": ("clang", ["-O1", "-g", "-fsanitize=address,undefined",
-                       "-fno-sanitize-recover=undefined", "-fno-omit-frame-pointer"]),
+                       "-fno-sanitize-recover=undefined", "-fno-omit-frame-pointer",
+                       # TranslationTableRule.charsdots[DEFAULTRULESIZE] is a "struct hack" trailing array that is
+                       # deliberately indexed beyond 50 inside a larger allocation; ASan still guards the allocation
+                       "-fno-sanitize=bounds"]),
     "plain": ("gcc", ["-O1", "-g"]),
 }
 
@@ -136,7 +139,7 @@ def cflags():
 
 def build_lib(variant="asan"):
     """Compile /repo/liblouis/*.c (current working tree) with the guard on."""
-    h = src_hash()
+    h = hashlib.sha256((src_hash() + repr(VARIANTS[variant]) + repr(cflags())).encode()).hexdigest()[:16]
     d = BUILD / ("lib-%s-%s" % (variant, h))
     with locked("lib-" + variant):
         if (d / "ok").exists():
